@@ -425,8 +425,12 @@ def gen_store_case(rng, tier):
     if kind == 'Store' and rng.random() < 0.3:
         # None is a legal item (e.g. an end-of-stream marker): exactly one, so that items stay unique
         cands = [op for p in procs for op in p['ops'] if op.get('op') == 'put']
-        if cands:
-            rng.choice(cands)['item'] = None
+        rng.shuffle(cands)
+        for op, item in zip(cands, [None, 0, '', False][:rng.randint(1, 4)]):
+            # falsy items are items like any other; 0 and False compare equal, so at most one of them
+            if item is False and any(o.get('item') == 0 and o.get('item') is not False for o in cands):
+                continue
+            op['item'] = item
     if kind == 'PriorityStore':
         # one store holds either PriorityItems or bare tuples, not both (they do not compare)
         pi = rng.random() < 0.5
